@@ -340,6 +340,7 @@ func c12Free(r *core.Result, seed int64, reps int) {
 			}
 		}
 	}
+	c12SharedInputs(r, c, seed)
 	fp0 := sharedFingerprint(c)
 	for rep := 0; rep < reps; rep++ {
 		for i := range ops {
@@ -372,6 +373,43 @@ func c12Free(r *core.Result, seed int64, reps int) {
 	}
 	if sharedFingerprint(c) != fp0 {
 		vio(r, "c12.shared", "concurrent calls", "all pairs free-running", "configuration and package variables unchanged", "shared fingerprint changed")
+	}
+}
+
+// c12SharedInputs: several callers inside the same call on the SAME read-only argument objects (everything
+// except the commitments handed to proof creation, which the prover may re-normalise). Inputs are never
+// written (C13), so sharing them is as safe as sharing the configuration; under -race any store into them
+// is reported.
+func c12SharedInputs(r *core.Result, c *ipa.IPAConfig, seed int64) {
+	const callers = 4
+	for _, op := range roMenu() {
+		g := newPlain(1 << 20)
+		var call func() string
+		var alone string
+		if !guard(r, "c12.panic", op.name, "shared read-only arguments: preparing", func() { call = op.prep(c, seed, g); alone = call() }) {
+			continue
+		}
+		outs := make([]string, callers)
+		if !timed(r, "c12.panic", op.name, fmt.Sprintf("%d concurrent callers sharing the same read-only argument objects (free-running)", callers), func() {
+			var wg sync.WaitGroup
+			for k := 0; k < callers; k++ {
+				wg.Add(1)
+				go func(k int) { defer wg.Done(); outs[k] = call() }(k)
+			}
+			wg.Wait()
+		}) {
+			continue
+		}
+		r.Evals++
+		for k := range outs {
+			if outs[k] != alone {
+				vio(r, "c12.interference", op.name, fmt.Sprintf("%d concurrent callers sharing the same read-only argument objects (free-running, GOMAXPROCS=%s)", callers, os.Getenv("GOMAXPROCS")), "same output as when executed alone: "+clipS(alone), clipS(outs[k]))
+				break
+			}
+		}
+		if after := call(); after != alone {
+			vio(r, "c12.interference", op.name, "the same call alone, after the concurrent callers sharing its arguments", "same output as before: "+clipS(alone), clipS(after))
+		}
 	}
 }
 
